@@ -65,8 +65,11 @@ def check(run: Run, prog: Program, model: Model, tier: str) -> None:
         "make_required keeps every key and member and only ever lowers the optional flag of the listed keys; "
         "indexing and iteration expose the declared table. The stated set equalities over values are not decided."
         " The dict decision table of the validator is re-derived on the marker-first / marker-in-the-middle tables that d1 + d2 produces.")
+    run.explanation += ' MAKE-REQUIRED cases include repeated keys whose count equals the table size.'
     run.rule_text = ("one obligation per (combinator, operand shape); non-trivial = the result table was computed by the "
                      "interpreter through loops/unpacking and compared entry by entry")
+    from ..entry import entry_transparent
+    entry_transparent(run, prog, model, "validate", "VALIDATE-ENTRY")
     _PLAIN["cls"] = model.schemas["IntSchema"].cls
     _alias(run, prog, model)
     _union(run, prog, model)
@@ -316,6 +319,9 @@ def _make_required(run: Run, prog: Program, model: Model) -> None:
         ("all keys (default)", False, None), ("all keys, relaxed table", True, None),
         ("keys=[o1]", False, ["o1"]), ("keys=[o1], relaxed table", True, ["o1"]), ("keys=[]", False, []),
         ("keys=(r1, o2)", False, ["r1", "o2"]),
+        # the listed keys are a collection, not a set: repeats must not change which keys are listed
+        ("keys=[r1, o1, o1] (as many entries as the table)", False, ["r1", "o1", "o1"]),
+        ("keys=[o1, o1, r1, r1], relaxed table (as many entries as the table)", True, ["o1", "o1", "r1", "r1"]),
     ]
     for label, relaxed, ks in cases:
         it = Interp(prog, model)
@@ -421,6 +427,9 @@ D = "d42/declaration/types/_dict_schema.py"
 A = "d42/declaration/types/_any_schema.py"
 MR = "d42/utils/_make_required.py"
 MUTANTS = [
+    {"name": "make_required takes `as many keys as the table` for `all keys` (seeded C13-L)", "rule": "MAKE-REQUIRED",
+     "edits": [("d42/utils/_make_required.py", "        updated_keys = {}\n        for key, (val, is_optional) in props_keys.items():\n            updated_keys[key] = (val, False if (key in keys) else is_optional)\n",
+                "        updated_keys = {}\n        every = len(keys) == len(props_keys)\n        for key, (val, is_optional) in props_keys.items():\n            updated_keys[key] = (val, False if (every or key in keys) else is_optional)\n")]},
     {"name": "validator treats everything after the relaxed marker as allowed-as-is", "rule": "ADD-VALIDATES",
      "edits": [("d42/validation/_validator.py", "        for key, (val, is_optional) in schema.props.keys.items():\n            if is_ellipsis(key):\n                continue",
                 "        for key, (val, is_optional) in schema.props.keys.items():\n            if is_ellipsis(key):\n                break")]},
